@@ -57,6 +57,9 @@ class Workdir:
 
 # ---------------------------------------------------------------------------------------- builds
 
+API_DRIFT = None    # compile error of the harness when it only builds with the tag noapi (see build_harness)
+
+
 def build_harness(tags="verif", race=False):
     """rebuild the Go harness against /repo's current working tree; returns (binary, error-or-None)"""
     os.makedirs(os.path.join(HARNESS, "bin"), exist_ok=True)
@@ -75,6 +78,18 @@ def build_harness(tags="verif", race=False):
         env["CGO_ENABLED"] = "1"
     cmd.append(".")
     rc, so, se, dt = run(cmd, cwd=HARNESS, env=env)
+    if rc != 0 and "noapi" not in tags:
+        # the harness no longer compiles against the tree.  If only the signatures of the few methods it calls directly changed
+        # (harness/psapi.go), the same harness builds with those calls made through reflection (tag noapi): the broken tie is remembered
+        # (API_DRIFT; `check` reports it, with no-failing-input-found unless an engine finds an input) and the search goes on.
+        first = (so + se)[-4000:]
+        cmd2 = [("verif noapi" if c == tags else c) for c in cmd]
+        rc2, so2, se2, _ = run(cmd2, cwd=HARNESS, env=env)
+        if rc2 == 0:
+            global API_DRIFT
+            API_DRIFT = first
+            return out, None
+        return None, first
     if rc != 0:
         return None, (so + se)[-4000:]
     return out, None
